@@ -41,10 +41,10 @@ fn project(base: Res, elem: &dyn Fn(&Value) -> Res) -> Res {
     }
 }
 
-pub const LAWS: &[&str] = &["pipe", "list-wildcard", "flatten", "slice", "filter", "object-wildcard", "multi-list", "multi-hash", "not", "and", "or", "list-wildcard-chain", "slice-chain", "flatten-chain"];
+pub const LAWS: &[&str] = &["pipe", "list-wildcard", "flatten", "slice", "filter", "object-wildcard", "multi-list", "multi-hash", "not", "and", "or", "list-wildcard-chain", "slice-chain", "flatten-chain", "list-wildcard-call", "slice-call", "flatten-call", "filter-call", "object-wildcard-call"];
 
 /// expected value of the compound from the parts' individual results
-fn expected(law: &str, l: &Expression<'_>, r: &Expression<'_>, r_in_list: &Expression<'_>, r_chain: &Expression<'_>, d: &Value) -> Res {
+fn expected(law: &str, l: &Expression<'_>, r: &Expression<'_>, r_in_list: &Expression<'_>, r_chain: &Expression<'_>, r_call: &Expression<'_>, d: &Value) -> Res {
     match law {
         "pipe" => {
             let lv = search(l, d)?;
@@ -133,6 +133,54 @@ fn expected(law: &str, l: &Expression<'_>, r: &Expression<'_>, r_in_list: &Expre
             }
             _ => Ok(Value::Null),
         },
+        // right-hand side is a call that turns a null element into a non-null result:
+        // every element must be visited, including null ones
+        "list-wildcard-call" => project(search(l, d), &|x| search(r_call, x)),
+        "slice-call" => {
+            let base = search(l, d).map(|v| match v {
+                Value::Array(xs) => Value::Array(xs.into_iter().skip(1).collect()),
+                _ => Value::Null,
+            });
+            project(base, &|x| search(r_call, x))
+        }
+        "flatten-call" => {
+            let base = search(l, d).map(|v| match v {
+                Value::Array(xs) => {
+                    let mut out = Vec::new();
+                    for x in xs {
+                        match x {
+                            Value::Array(inner) => out.extend(inner),
+                            o => out.push(o),
+                        }
+                    }
+                    Value::Array(out)
+                }
+                _ => Value::Null,
+            });
+            project(base, &|x| search(r_call, x))
+        }
+        "object-wildcard-call" => {
+            let base = search(l, d).map(|v| match v {
+                Value::Object(m) => Value::Array(m.values().cloned().collect()),
+                _ => Value::Null,
+            });
+            project(base, &|x| search(r_call, x))
+        }
+        "filter-call" => match search(l, d)? {
+            Value::Array(xs) => {
+                let mut out = Vec::new();
+                for x in xs {
+                    if truthy(&search(r, &x)?) {
+                        let v = search(r_call, &x)?;
+                        if !v.is_null() {
+                            out.push(v);
+                        }
+                    }
+                }
+                Ok(Value::Array(out))
+            }
+            _ => Ok(Value::Null),
+        },
         "multi-list" => {
             if d.is_null() {
                 return Ok(Value::Null);
@@ -182,6 +230,11 @@ fn compound(law: &str, l: &str, r: &str) -> String {
         "list-wildcard-chain" => format!("({})[*].a[?{}]", l, r),
         "slice-chain" => format!("({})[1:].a[?{}]", l, r),
         "flatten-chain" => format!("({})[].a[?{}]", l, r),
+        "list-wildcard-call" => format!("({})[*].to_array({})", l, r),
+        "slice-call" => format!("({})[1:].to_array({})", l, r),
+        "flatten-call" => format!("({})[].to_array({})", l, r),
+        "object-wildcard-call" => format!("({}).*.to_array({})", l, r),
+        "filter-call" => format!("({})[?{}].to_array({})", l, r, r),
         "filter-chain" => format!("({})[?{}].a[?{}]", l, r, r),
         _ => unreachable!(),
     }
@@ -229,6 +282,10 @@ pub fn check_pair(l: &str, r: &str, docs: &[Value], st: &mut Stats) {
         Some(e) => e,
         None => return,
     };
+    let rcall = match compile(&format!("to_array({})", r)) {
+        Some(e) => e,
+        None => return,
+    };
     st.states += 1;
     for law in LAWS {
         let src = compound(law, l, r);
@@ -250,7 +307,7 @@ pub fn check_pair(l: &str, r: &str, docs: &[Value], st: &mut Stats) {
             st.transitions += 1;
             st.evaluations += 1;
             st.validated += 1;
-            let want = expected(law, &le, &re, &rl, &rc, d);
+            let want = expected(law, &le, &re, &rl, &rc, &rcall, d);
             let got = search(&ce, d);
             if !same(&want, &got) {
                 st.outcome("LAW-BROKEN");
